@@ -30,13 +30,15 @@ EXTENDS Integers, Sequences, FiniteSets, TLC, Json
 
 CONSTANTS Ops,       \* operator names explored
           MaxLen,    \* source elements 0..MaxLen
-          MaxT,      \* source / aux event times 1..MaxT (aux offsets 0..MaxT for fallbacks)
+          MaxT,      \* source / aux event times Lo..MaxT (aux offsets 0..MaxT for fallbacks)
+          Lo,        \* 1, or 0: a (cold) source may also notify at its very subscription instant
           Small, MaxLenS, MaxTS,   \* operators in Small use these two bounds instead (one TLC run covers groups of different cost)
           Ds,        \* durations offered to the d parameter (relative forms), naturals
           AbsLo,     \* absolute forms: targets range over -AbsLo .. max(Ds) (relative to the subscription instant)
           Terms,     \* subset of {"C","E","U"}: how the source ends (U = never)
           AuxLen,    \* aux timeline: 0..AuxLen elements
           SpecKs,    \* per-element delay/throttle/timeout observables: first notification kinds, subset of {"N","C","E","U"}
+                     \* (U = never notifies), and "X": the mapper function raises instead of returning an observable
           SpecTs,    \* ... and its offset
           Hz,        \* horizon: the run is observed through instant Hz (inclusive)
           DispOps,   \* for these operators the dispose instant ranges over 0..Hz as well as "never" ...
@@ -74,7 +76,9 @@ MapOps   == {"delay_with_mapper", "delay_with_mapper_sub", "throttle_with_mapper
 \* timers of these operators form ONE lane (the statement fixes their mutual order)
 Fifo(o)  == o \in DelayOps \cup DSubOps
 
-Specs    == [k : SpecKs, t : SpecTs]
+MinSpecT == CHOOSE d \in SpecTs : \A e \in SpecTs : d <= e
+Specs    == {sp \in [k : SpecKs, t : SpecTs] : sp.k \in {"U", "X"} => sp.t = MinSpecT}   \* no offset to speak of for U and X
+FSpecs   == {sp \in Specs : sp.k # "X"}          \* the subscription delay / first timeout is an observable, not a mapper
 AbsDs    == (0 - AbsLo)..MaxD
 PosDs    == Ds \ {0}
 
@@ -86,7 +90,7 @@ ParamsOf(o, len) ==
     [] o \in AbsOps \cup {"timeout_abs_other"} -> [d : AbsDs]
     [] o \in {"delay_with_mapper", "throttle_with_mapper"} -> [m : [1..len -> Specs]]
     [] o \in {"delay_with_mapper_sub", "timeout_with_mapper", "timeout_with_mapper_other"}
-                                            -> [m : [1..len -> Specs], f : Specs]
+                                            -> [m : [1..len -> Specs], f : FSpecs]
     [] OTHER                                -> {[z |-> 0]}
 
 \* effective duration / boundary, relative to the subscription instant
@@ -128,12 +132,14 @@ Ns(q, lo) == [h \in 1..Len(q) |-> N(q[h], IF lo THEN src[q[h]] + D ELSE 0)]
 Nx(o, p, s, t0, t, ix) ==
   CASE o \in DelayOps -> R(s, <<>>, FALSE, Append(t0, T(t + D, "dl", ix)), "")
     [] o \in DSubOps  -> R(s, <<>>, FALSE, Append(t0, T(t, "dl", ix)), "")            \* delivered through an empty() delay: a hop
-    [] o \in DMapOps  -> IF p.m[ix].k = "U" THEN R([s EXCEPT !.a = s.a + 1], <<>>, FALSE, t0, "")
-                         ELSE R(s, <<>>, FALSE, t0 \o SpecTimer(p.m[ix], t, "dl", "dlerr", ix), "")
+    [] o \in DMapOps  -> CASE p.m[ix].k = "U" -> R([s EXCEPT !.a = s.a + 1], <<>>, FALSE, t0, "")
+                           [] p.m[ix].k = "X" -> R(s, <<Er("fn")>>, TRUE, <<>>, "")
+                           [] OTHER -> R(s, <<>>, FALSE, t0 \o SpecTimer(p.m[ix], t, "dl", "dlerr", ix), "")
     [] o = "timestamp"     -> R(s, <<N(ix, t)>>, FALSE, t0, "")
     [] o = "time_interval" -> R([s EXCEPT !.a = t], <<N(ix, t - s.a)>>, FALSE, t0, "")
     [] o = "debounce"      -> R([s EXCEPT !.a = ix], <<>>, FALSE, <<T(t + D, "db", ix)>>, "")
-    [] o = "throttle_with_mapper" -> R([s EXCEPT !.a = ix], <<>>, FALSE, SpecTimer(p.m[ix], t, "db", "dlerr", ix), "")
+    [] o = "throttle_with_mapper" -> IF p.m[ix].k = "X" THEN R(s, <<Er("fn")>>, TRUE, <<>>, "")
+                                     ELSE R([s EXCEPT !.a = ix], <<>>, FALSE, SpecTimer(p.m[ix], t, "db", "dlerr", ix), "")
     [] o = "throttle_first" -> IF ~s.b \/ t - s.a >= D THEN R([s EXCEPT !.a = t, !.b = TRUE], <<N(ix, 0)>>, FALSE, t0, "")
                                ELSE R(s, <<>>, FALSE, t0, "")
     [] o \in {"sample", "sample_obs"} -> R([s EXCEPT !.a = ix], <<>>, FALSE, t0, "")
@@ -148,7 +154,8 @@ Nx(o, p, s, t0, t, ix) ==
     \* absolute due time: every element re-arms the timer for the same absolute instant
     [] o \in {"timeout_abs", "timeout_abs_other"} -> R(s, <<N(ix, 0)>>, FALSE, <<T(Max2(D, t), "to", ix)>>, "")
     [] o \in {"timeout_with_mapper", "timeout_with_mapper_other"}
-                     -> R(s, <<N(ix, 0)>>, FALSE, SpecTimer(p.m[ix], t, "to", "dlerr", ix), "")
+                     -> IF p.m[ix].k = "X" THEN R(s, <<N(ix, 0), Er("fn")>>, TRUE, <<>>, "")
+                        ELSE R(s, <<N(ix, 0)>>, FALSE, SpecTimer(p.m[ix], t, "to", "dlerr", ix), "")
     [] OTHER -> R(s, <<N(ix, 0)>>, FALSE, t0, "")
 
 \* the source's terminal k ("C" / "E") arrives at instant t
@@ -198,9 +205,9 @@ LastOf(s, lo) == IF Len(s) = 0 THEN lo ELSE s[Len(s)]
 Stamp(em, t) == [h \in 1..Len(em) |-> [t |-> t, k |-> em[h].k, i |-> em[h].i, x |-> em[h].x, e |-> em[h].e]]
 
 Init == /\ op \in Ops
-        /\ src \in TimeSeqs(LenOf(op), 1, TOf(op))
+        /\ src \in TimeSeqs(LenOf(op), Lo, TOf(op))
         /\ term \in Terms
-        /\ tT \in (IF term = "U" THEN {0} ELSE LastOf(src, 1)..TOf(op))
+        /\ tT \in (IF term = "U" THEN {0} ELSE LastOf(src, Lo)..TOf(op))
         /\ par \in ParamsOf(op, Len(src))
         /\ hot \in (IF op \in HotOps THEN BOOLEAN ELSE {FALSE})
         \* sampler timelines start at 1; fallback timelines are cold and may start at offset 0
@@ -341,7 +348,7 @@ RefDelaySub ==
 \* C15 delay_with_mapper (no subscription delay, no failing delay observable): element ix is delivered when its
 \* delay observable first notifies (src[ix] + m[ix].t), never if it never notifies; completion once the source
 \* completed and nothing is pending
-MapFaultFree == \A ix \in 1..n : par.m[ix].k # "E"
+MapFaultFree == \A ix \in 1..n : par.m[ix].k \notin {"E", "X"}
 RefDelayMap ==
   LET due(ix) == src[ix] + par.m[ix].t
       fin(ix) == par.m[ix].k # "U"
@@ -520,7 +527,7 @@ Ref ==
     [] op = "skip_last_with_time" -> RefSkipLast
     [] op \in {"timeout", "timeout_other"} -> RefTimeout
     [] op \in {"timeout_abs", "timeout_abs_other"} -> RefTimeoutAbs
-    [] op \in {"timeout_with_mapper", "timeout_with_mapper_other"} -> RefTimeoutMap
+    [] op \in {"timeout_with_mapper", "timeout_with_mapper_other"} -> ((\A ix \in 1..n : par.m[ix].k # "X") => RefTimeoutMap)
     [] OTHER -> TRUE
 RefOK == (Final /\ dsp = NEVER) => Ref
 
